@@ -127,6 +127,7 @@ def _values():
         {"N": 0}, {"L": []}, {"L": [{"I": 1}, S("2")]}, {"L": [{"L": [{"I": 1}]}, {"L": [S("x")]}]}, {"L": [S("A"), S("Fz")]},
         {"L": [{"O": {"kind": "argument", "value": {"I": 4}}}, {"I": 5}]}, {"L": [{"F": 1.5}, {"B": True}]},
         {"D": []}, {"D": [[S("a"), {"I": 1}]]}, {"D": [[{"I": 1}, {"I": 2}], [S("k"), S("v")]]},
+        {"X": "np.float32:2.75"}, {"X": "np.float16:0.5"}, {"X": "np.int32:7"}, {"X": "Fraction:11/4"}, {"X": "Decimal:2.75"},
         {"T": "float"}, {"T": "int"}, cmd(), cmd(is_fuzzy=True), cmd(is_fuzzy=False), cmd(finished=True, result={"O": {"kind": "ndarray"}}),
         cmd(finished=True, result={"I": 3}), {"O": {"kind": "argument", "value": {"I": 1}}}, {"O": {"kind": "ndarray"}}, {"O": {"kind": "object"}},
     ]
